@@ -629,7 +629,7 @@
 		local.get $block_size
 		i32.add
 		global.get $__heap_top
-		i32.ge_s
+		i32.ge_u ;; 无符号比较: heap_ptr+block_size 超过 2GB 时按有符号数会变成负数, 跳过扩容
 		if
 			;; $pages = ($block_size+WASM_PAGE_SIZE-1) / WASM_PAGE_SIZE)
 			local.get $block_size
